@@ -156,7 +156,7 @@ func judge(c *vk.Ctx, tr *tracker, b, e int, lastAtCall int, res rig.StepResult,
 
 func main() {
 	c := vk.Init("C10")
-	c.Rule("(1) EXHAUSTIVE: for K in 1..8 outbound messages of mixed kinds (Logon/Logon reply, application sends, Heartbeat replies to TestRequests, Rejects of damaged messages), both roles, classes fresh-objects and reused-object: every ResendRequest(b,e) with (b,e) in [0,K+2]^2 on a fresh session; first transmissions are recorded from Outgoing() as emitted and compared byte for byte. (2) random sessions with K up to 200 and up to 12 repeated/overlapping requests each; in every third one the application registers observers (outgoing all-types, outgoing for its message type, incoming all-types) before Session.Run and removes them after the first round. (2b) sessions continuing a counter store preset to 9990 / 99990 / 999990 / 9999990 / 2^31-10 / 2^32-10: 14 messages, then requests b..e with b = preset+1..15 and e in {b, b+1, preset+9, +10, +11, last-1, last, 0}. (3) Logon gap: counter store preset to c, Logon with 34=r, all (c,r) in [0,6]x[1,8], both roles: r>c+1 must draw a ResendRequest with 7=c+1; and the same at a second logon of one session (after its own Logout was answered, or after the peer's Logout), the second Logon skipping 0, 1 or 3 numbers. (3c) real time, N=1: ResendRequest(1,0) arriving while the session's own TestRequest is pending is answered with the stored messages, not rejected. (4) thorough: 3 goroutines send while requests are fed; retransmissions must be byte-identical, contiguous b..n with n between last-sent-at-call and last-sent-at-return. distinct = (role,class,K,b,e,traffic); non-trivial = request inside the sent range or e=0")
+	c.Rule("(1) EXHAUSTIVE: for K in 1..8 outbound messages of mixed kinds (Logon/Logon reply, application sends, Heartbeat replies to TestRequests, Rejects of damaged messages), both roles, classes fresh-objects and reused-object: every ResendRequest(b,e) with (b,e) in [0,K+2]^2 on a fresh session; first transmissions are recorded from Outgoing() as emitted and compared byte for byte. (2) random sessions with K up to 200 and up to 12 repeated/overlapping requests each, a third of them written with leading zeros (02..010); in every third one the application registers observers (outgoing all-types, outgoing for its message type, incoming all-types) before Session.Run and removes them after the first round. (2b) sessions continuing a counter store preset to 9990 / 99990 / 999990 / 9999990 / 2^31-10 / 2^32-10: 14 messages, then requests b..e with b = preset+1..15 and e in {b, b+1, preset+9, +10, +11, last-1, last, 0}. (3) Logon gap: counter store preset to c, Logon with 34=r, all (c,r) in [0,6]x[1,8], both roles: r>c+1 must draw a ResendRequest with 7=c+1; and the same at a second logon of one session (after its own Logout was answered, or after the peer's Logout), the second Logon skipping 0, 1 or 3 numbers. (3c) real time, N=1: ResendRequest(1,0) arriving while the session's own TestRequest is pending is answered with the stored messages, not rejected. (4) thorough: 3 goroutines send while requests are fed; retransmissions must be byte-identical, contiguous b..n with n between last-sent-at-call and last-sent-at-return. distinct = (role,class,K,b,e,traffic); non-trivial = request inside the sent range or e=0")
 	c.Assume("precondition: no outgoing handler refuses and the store does not fail (every assigned number was saved)")
 	type job struct {
 		role  rig.Role
@@ -285,7 +285,14 @@ func main() {
 				e = b + rr.Intn(tr.last-b+2)
 			}
 			lastAtCall := tr.last
-			res = r.Inbound(p.Resend(b, e))
+			if rr.Intn(3) == 0 {
+				// the peer writes its numbers with leading zeros (FIX permits that): 02..010 is 2..10
+				w := 2 + rr.Intn(4)
+				res = r.Inbound(p.Msg("2", fixref.F(rig.TBeginSeq, fmt.Sprintf("%0*d", w, b)), fixref.F(rig.TEndSeq, fmt.Sprintf("%0*d", w, e))))
+				c.Count("requests_with_zero_padded_numbers", 1)
+			} else {
+				res = r.Inbound(p.Resend(b, e))
+			}
 			if res.TimedOut {
 				c.Inconclusive("watchdog")
 				return
